@@ -219,6 +219,28 @@ def run(ctx):
             else:
                 ctx.undecided('C12.4-map-recipe', inst, 'no comparison closure found in the Map arm')
         # Tuple: first call on the arm is len().cmp (size first)
+        # bit strings: the byte vectors are compared whole (the last, partly used byte included), the bit count breaks the tie
+        rbb = T['table'].get(('BitBinary', 'BitBinary'))
+        if rbb is not None:
+            inst = which + ':BitBinary'
+            if rbb['kind'] != 'compares':
+                ctx.undecided('C12.5-recipes', inst, 'arm not recognised')
+            else:
+                t0 = B.blocks[rbb['bb']]['t']
+                cs_ = [canon(B, a_) for a_ in (t0.get('args') or [])[:2]] if t0['k'] == 'call' else []
+
+                def whole_bytes(c_):
+                    for _ in range(4):     # through as_ref / deref / as_slice views
+                        if isinstance(c_, tuple) and c_ and c_[0] == 'call' and str(c_[1]).rsplit('::', 1)[-1] in ('as_ref', 'deref', 'as_slice', 'as_bytes', 'borrow'):
+                            c_ = canon(B, B.blocks[c_[2]]['t']['args'][0])
+                    return isinstance(c_, tuple) and c_ and c_[0] == 'place' and c_[1] in (('arg', 1), ('arg', 2)) and tuple(c_[2]) == ('as:BitBinary', 'bytes')
+                nm0 = (callee_of(t0)[0] or '') if t0['k'] == 'call' else ''
+                if nm0.rsplit('::', 1)[-1] == 'cmp' and len(cs_) == 2 and all(whole_bytes(c_) for c_ in cs_):
+                    ctx.ok('C12.5-recipes', inst, 'the byte vectors are compared whole, then the bit counts', ctx.where(B, rbb['bb']))
+                else:
+                    ctx.bad('C12.5-recipes', inst, 'the bit-string arm does not start by comparing the two byte vectors as they are (first operation: %s on %s): bit strings compare bit by bit from the front, '
+                            'so the partly used last byte takes part in the byte-wise comparison - split off, a shorter string can sort before a longer one whose next byte is smaller'
+                            % (nm0.rsplit('::', 1)[-1] or t0['k'], [describe(B, c_)[:40] for c_ in cs_]), ctx.where(B, rbb['bb']), key='SHAPE:%s:BitBinary:bytes-whole' % cmpname)
         for var, first in (('Tuple', 'len'), ('List', 'elements'), ('Atom', 'name')):
             r = T['table'][(var, var)]
             inst = '%s:%s' % (which, var)
